@@ -20,8 +20,8 @@
    * integer semantics of the emitted tree on Z ([ieval]): two's-complement wrap written explicitly, ONNX integer
      Div = Z.quot (truncation).  Floating arithmetic is not modelled (validated only, see harness/c17.py).
 
-   [repairs] selects the modelled source: the pinned tree (both false) or the tree with fixes/F10a.diff and
-   fixes/F21.diff applied.  No proofs in this file. *)
+   [repairs] selects the modelled source: the pinned tree (all false) or the tree with fixes/F10a.diff,
+   fixes/F21.diff and fixes/F22.diff applied.  No proofs in this file. *)
 From Coq Require Import ZArith List Bool.
 Import ListNotations.
 Open Scope Z_scope.
@@ -99,10 +99,11 @@ Record setting := mk_setting { tp : bool; cp : bool }.       (* type_promotion, 
 Definition all_settings : list setting :=
   [mk_setting true true; mk_setting true false; mk_setting false true; mk_setting false false].
 
-Record repairs := mk_repairs { fix_floordiv : bool;   (* fixes/F10a.diff: floor correction for signed integers *)
-                               fix_unary : bool }.    (* fixes/F21.diff: unary operators outside a block raise *)
-Definition pinned : repairs := mk_repairs false false.
-Definition repaired : repairs := mk_repairs true true.
+Record repairs := mk_repairs { fix_floordiv : bool;       (* fixes/F10a.diff: floor correction for signed integers *)
+                               fix_unary : bool;          (* fixes/F21.diff: unary operators outside a block raise *)
+                               fix_neg_unsigned : bool }. (* fixes/F22.diff: -x on unsigned Vars emitted as 0 - x *)
+Definition pinned : repairs := mk_repairs false false false.
+Definition repaired : repairs := mk_repairs true true true.
 
 Inductive logic := LAnd | LOr | LXor.
 Inductive pyop := PArith (o : arith) | PLogic (o : logic) | PNeg | PInvert.
@@ -243,9 +244,15 @@ Section WithTable.
     | OVar a, OVar b => if is_bool a && is_bool b then Ok (EBin (logic_bop o) TB (EArg SA) (EArg SB)) TB else Err EInference
     | _, _ => Err ETypeError
     end.
-  Definition disp_unary (o : uop) (x : operand) : res :=
+  Definition disp_unary (r : repairs) (o : uop) (x : operand) : res :=
     match x with
-    | OVar a => if uop_accepts o a then Ok (EUn o a (EArg SA)) a else Err EInference
+    | OVar a =>
+        match o with
+        | ONeg =>
+            if fix_neg_unsigned r && is_uint a then Ok (EBin OSub a (EConst a (Some 0)) (EArg SA)) a   (* 0 - x *)
+            else if uop_accepts ONeg a then Ok (EUn ONeg a (EArg SA)) a else Err EInference
+        | _ => if uop_accepts o a then Ok (EUn o a (EArg SA)) a else Err EInference
+        end
     | _ => Err ETypeError
     end.
 
@@ -272,7 +279,7 @@ Section WithTable.
     | PNeg | PInvert =>
         match d with
         | None => if fix_unary r then Err ETypeError else RNotImplemented
-        | Some _ => disp_unary (match o with PNeg => ONeg | _ => ONot end) x
+        | Some _ => disp_unary r (match o with PNeg => ONeg | _ => ONot end) x
         end
     | _ => RNoVar
     end.
